@@ -227,5 +227,9 @@ func (h DefaultStrategy) GenerateIDToken(ctx context.Context, lifespan time.Dura
 	claims.IssuedAt = time.Now().UTC()
 
 	token, _, err = h.Signer.Generate(ctx, claims.ToMapClaims(), sess.IDTokenHeaders())
-	return token, err
+	if err != nil {
+		// e.g. the signing key could not be obtained: an internal failure, not an error of the request
+		return "", errorsx.WithStack(fosite.ErrServerError.WithWrap(err).WithDebug(err.Error()))
+	}
+	return token, nil
 }
